@@ -419,6 +419,7 @@ def run_check(prop, target, tier, cfg, describe):
 
     candidates, infra = [], list(pool.infra)
     history_notes = []
+    history_dependence = []
     for w in ws:
         for r in w.reports:
             if r.get("rerun_same") is False:
@@ -442,13 +443,14 @@ def run_check(prop, target, tier, cfg, describe):
     if tot["recheck_mismatch"] or history_notes:
         msg = ("%d in-process re-runs disagreed with the first execution (state kept from run to run)"
                % max(tot["recheck_mismatch"], len(history_notes)))
-        if violations or known_hits:
-            # confirmed in fresh processes: the dependence on the process history
-            # belongs to the code under test
-            print("note: " + msg)
-        else:
-            infra.append(msg)
-            infra += history_notes[:5]
+        # A clean run whose second execution in the same process differs is not a
+        # failure of the check: code under test may legitimately depend on the
+        # history of the process (addresses, caches) without violating anything.
+        # The unchanged tree shows no such dependence (tools/selftest.py); the
+        # count is reported in the evidence. A *violation* that does not
+        # reproduce in a fresh process is a machinery failure (see the gate).
+        print("note: " + msg)
+        history_dependence = history_notes[:5]
 
     wall = time.time() - t0
     runs = tot["runs"]
@@ -487,6 +489,7 @@ def run_check(prop, target, tier, cfg, describe):
             "known_findings_seen": [{"id": k.get("known_id"), "seed": k["seed"], "replay": k["replay"]} for k in known_hits],
             "violations_reported": [{"seed": v["seed"], "class": v["class"], "replay": v["replay"], "detail": v["detail"]} for v in violations],
             "infra_messages": infra,
+            "process_history_dependence": history_dependence,
             "build_s": round(t_build, 1),
             "workers": cfg["workers"],
             "deadline_hit": tot["deadline_hit"],
